@@ -738,7 +738,16 @@ class NetworkGraph(AbstractBaseIR):
                 s_str = f'{svar}_in{i}'
                 sidx_str = f'source_idx_in{i}'
                 tidx_str = f'target_idx_in{i}'
-                args[t_str] = {'value': np.zeros(in_shape), 'dtype': 'float', 'vtype': 'variable',
+                in_value = np.zeros(in_shape)
+                if i == 0 and tsize > 0 and all(len(ti) > 0 for ti in target_indices):
+                    # units that no edge reaches keep their declared default (the summed buffers are zero elsewhere)
+                    defaults = np.asarray(tval['value'], dtype=float).reshape(-1)
+                    if defaults.shape[0] == tsize:
+                        covered = {int(t) for ti in target_indices for t in ti}
+                        for u in range(tsize):
+                            if u not in covered:
+                                in_value[u] = defaults[u]
+                args[t_str] = {'value': in_value, 'dtype': 'float', 'vtype': 'variable',
                                'shape': in_shape}
             else:
                 t_str = tvar
